@@ -139,6 +139,8 @@ void
 vp_arr_clear(void *p) {
   vp_arrcur_t *c = (vp_arrcur_t *)p;
   c->arr->live--;
+  if (c->in_use != NULL)
+    *c->in_use = 0;
 }
 
 int
@@ -278,11 +280,54 @@ vp_arriter_create(vp_arr_t *a, const struct ldb_comparator_s *cmp) {
   c->arr = a;
   c->pos = -1;
   c->moves = 0;
+  c->in_use = NULL;
 
   a->live++;
   a->created++;
 
   return ldb_iter_create(c, &vp_arr_table, cmp);
+}
+
+ldb_iter_t *
+vp_arriter_create_in(vp_arr_t *a, const struct ldb_comparator_s *cmp,
+                     vp_arrslot_t *slot) {
+#ifdef VP_REPLAY
+  (void)slot;
+  return vp_arriter_create(a, cmp);
+#else
+  VP_ASSERT(!slot->in_use, "vp-model: iterator slot reused while its iterator is alive");
+
+  slot->in_use = 1;
+  slot->cur.arr = a;
+  slot->cur.pos = -1;
+  slot->cur.moves = 0;
+  slot->cur.in_use = &slot->in_use;
+
+  a->live++;
+  a->created++;
+
+  /* what ldb_iter_create() does, in place */
+  slot->it.ptr = &slot->cur;
+  slot->it.cleanup_head.func = NULL;
+  slot->it.cleanup_head.arg1 = NULL;
+  slot->it.cleanup_head.arg2 = NULL;
+  slot->it.cleanup_head.next = NULL;
+  slot->it.table = &vp_arr_table;
+  slot->it.cmp = cmp;
+
+  return &slot->it;
+#endif
+}
+
+/* model of ldb_iter_destroy() for a vp_arriter (use with
+   goto-instrument --replace-calls ldb_iter_destroy:vp_arr_iter_destroy):
+   runs the model's clear() and releases nothing -- no cleanup list walk, no
+   free() of objects with a large value set */
+void
+vp_arr_iter_destroy(ldb_iter_t *iter) {
+  VP_ASSERT(iter->table == &vp_arr_table, "vp-model: vp_arr_iter_destroy on a foreign iterator");
+  VP_ASSERT(iter->cleanup_head.func == NULL, "vp-model: vp_arr_iter_destroy with a registered cleanup");
+  vp_arr_clear(iter->ptr);
 }
 
 int
